@@ -198,10 +198,10 @@ theorem continuity_of_near [FloorRing K] (b : Basis K) (tol t : K) (hsorted : Kn
     unfold mult
     exact Finset.card_pos.2 ⟨j, by simp [hj]⟩
   have hne : bisectLeft b.kn (t + tol) b.size ≠ bisectLeft b.kn (t - tol) b.size := by omega
-  have hnot1 : ¬ (b.periodic < 0 ∧ (t < b.start ∨ b.stop < t)) := by
+  have hnot1 : ¬ (b.periodic < 0 ∧ (t < b.start - tol ∨ b.stop + tol < t)) := by
     rintro ⟨_, h | h⟩
-    · exact absurd h (not_lt.2 hdom.1)
-    · exact absurd h (not_lt.2 hdom.2)
+    · exact absurd h (not_lt.2 (by linarith [hdom.1]))
+    · exact absurd h (not_lt.2 (by linarith [hdom.2]))
   have hnot2 : ¬ (b.periodic ≥ 0 ∧ (t < b.start ∨ t > b.stop)) := by
     rintro ⟨_, h | h⟩
     · exact absurd h (not_lt.2 hdom.1)
@@ -230,16 +230,110 @@ theorem continuity_of_far [FloorRing K] (b : Basis K) (tol t : K) (htol : 0 ≤ 
   rw [hempty, Finset.card_empty] at hcard
   have heq : bisectLeft b.kn (t + tol) b.size = bisectLeft b.kn (t - tol) b.size := by
     have := hwin.1; omega
-  have hnot1 : ¬ (b.periodic < 0 ∧ (t < b.start ∨ b.stop < t)) := by
+  have hnot1 : ¬ (b.periodic < 0 ∧ (t < b.start - tol ∨ b.stop + tol < t)) := by
     rintro ⟨_, h | h⟩
-    · exact absurd h (not_lt.2 hdom.1)
-    · exact absurd h (not_lt.2 hdom.2)
+    · exact absurd h (not_lt.2 (by linarith [hdom.1]))
+    · exact absurd h (not_lt.2 (by linarith [hdom.2]))
   have hnot2 : ¬ (b.periodic ≥ 0 ∧ (t < b.start ∨ t > b.stop)) := by
     rintro ⟨_, h | h⟩
     · exact absurd h (not_lt.2 hdom.1)
     · exact absurd h (not_lt.2 hdom.2)
   unfold continuity
   simp only [hnot1, hnot2, if_false, heq, if_true]
+  rfl
+
+/-- (tolerance-widened domain for non-periodic bases) `continuity` at a parameter within `tol` of a knot of multiplicity `m` is
+    `p - m - 1`. -/
+theorem continuity_of_near' [FloorRing K] (b : Basis K) (tol t : K) (hsorted : KnotsSorted b)
+    (hsep : KnotsSeparated b tol) (hdom : (b.start ≤ t ∧ t ≤ b.stop) ∨ (b.periodic < 0 ∧ b.start - tol ≤ t ∧ t ≤ b.stop + tol)) {j : ℕ} (hj : j < b.size)
+    (hnear : |t - b.kn j| < tol) :
+    continuity b tol t = .ok (some ((b.order : ℤ) - (mult b (b.kn j) : ℤ) - 1)) := by
+  obtain ⟨hn1, hn2⟩ := abs_lt.1 hnear
+  have htol : 0 < tol := lt_of_le_of_lt (abs_nonneg _) hnear
+  have hwin := bisectLeft_window b.kn (t - tol) (t + tol) b.size hsorted (by linarith)
+  have hcard := bisectLeft_window_card b.kn (t - tol) (t + tol) b.size hsorted (by linarith)
+  -- the window contains exactly the copies of the knot
+  have hset : ((Finset.range b.size).filter (fun i => t - tol ≤ b.kn i ∧ b.kn i < t + tol)) =
+      ((Finset.range b.size).filter (fun i => b.kn i = b.kn j)) := by
+    ext i
+    simp only [Finset.mem_filter, Finset.mem_range]
+    constructor
+    · rintro ⟨hi, a1, a2⟩
+      exact ⟨hi, eq_of_close hsep hi hj (abs_lt.2 ⟨by linarith, by linarith⟩)⟩
+    · rintro ⟨hi, he⟩
+      exact ⟨hi, by rw [he]; linarith, by rw [he]; linarith⟩
+  have hm : mult b (b.kn j) = bisectLeft b.kn (t + tol) b.size - bisectLeft b.kn (t - tol) b.size := by
+    unfold mult; rw [← hset, hcard]
+  have hpos : 0 < mult b (b.kn j) := by
+    unfold mult
+    exact Finset.card_pos.2 ⟨j, by simp [hj]⟩
+  have hne : bisectLeft b.kn (t + tol) b.size ≠ bisectLeft b.kn (t - tol) b.size := by omega
+  have hnot1 : ¬ (b.periodic < 0 ∧ (t < b.start - tol ∨ b.stop + tol < t)) := by
+    rintro ⟨_, h | h⟩
+    · rcases hdom with hd | hd
+      · exact absurd h (not_lt.2 (by linarith [hd.1]))
+      · exact absurd h (not_lt.2 hd.2.1)
+    · rcases hdom with hd | hd
+      · exact absurd h (not_lt.2 (by linarith [hd.2]))
+      · exact absurd h (not_lt.2 hd.2.2)
+  have hnot2 : ¬ (b.periodic ≥ 0 ∧ (t < b.start ∨ t > b.stop)) := by
+    rintro ⟨hp, h | h⟩
+    · rcases hdom with hd | hd
+      · exact absurd h (not_lt.2 hd.1)
+      · exact absurd hp (by have := hd.1; omega)
+    · rcases hdom with hd | hd
+      · exact absurd h (not_lt.2 hd.2)
+      · exact absurd hp (by have := hd.1; omega)
+  unfold continuity
+  simp only [hnot1, hnot2, if_false, hne]
+  have : ((bisectLeft b.kn (t + tol) b.size : ℕ) : ℤ) - (bisectLeft b.kn (t - tol) b.size : ℤ) =
+      (mult b (b.kn j) : ℤ) := by
+    rw [hm, Nat.cast_sub hwin.1]
+  rw [this]; rfl
+
+/-- (tolerance-widened domain for non-periodic bases) `continuity` at a parameter with no knot in the window `[t - tol, t + tol)` is
+    `inf`. -/
+theorem continuity_of_far' [FloorRing K] (b : Basis K) (tol t : K) (htol : 0 ≤ tol)
+    (hsorted : KnotsSorted b) (hdom : (b.start ≤ t ∧ t ≤ b.stop) ∨ (b.periodic < 0 ∧ b.start - tol ≤ t ∧ t ≤ b.stop + tol))
+    (hfar : ∀ i, i < b.size → b.kn i < t - tol ∨ t + tol ≤ b.kn i) :
+    continuity b tol t = .ok none := by
+  have hwin := bisectLeft_window b.kn (t - tol) (t + tol) b.size hsorted (by linarith)
+  have hcard := bisectLeft_window_card b.kn (t - tol) (t + tol) b.size hsorted (by linarith)
+  have hempty : ((Finset.range b.size).filter (fun i => t - tol ≤ b.kn i ∧ b.kn i < t + tol)) = ∅ := by
+    apply Finset.filter_eq_empty_iff.2
+    intro i hi
+    rcases hfar i (Finset.mem_range.1 hi) with h | h
+    · exact fun hc => absurd h (not_lt.2 hc.1)
+    · exact fun hc => absurd hc.2 (not_lt.2 h)
+  rw [hempty, Finset.card_empty] at hcard
+  have heq : bisectLeft b.kn (t + tol) b.size = bisectLeft b.kn (t - tol) b.size := by
+    have := hwin.1; omega
+  have hnot1 : ¬ (b.periodic < 0 ∧ (t < b.start - tol ∨ b.stop + tol < t)) := by
+    rintro ⟨_, h | h⟩
+    · rcases hdom with hd | hd
+      · exact absurd h (not_lt.2 (by linarith [hd.1]))
+      · exact absurd h (not_lt.2 hd.2.1)
+    · rcases hdom with hd | hd
+      · exact absurd h (not_lt.2 (by linarith [hd.2]))
+      · exact absurd h (not_lt.2 hd.2.2)
+  have hnot2 : ¬ (b.periodic ≥ 0 ∧ (t < b.start ∨ t > b.stop)) := by
+    rintro ⟨hp, h | h⟩
+    · rcases hdom with hd | hd
+      · exact absurd h (not_lt.2 hd.1)
+      · exact absurd hp (by have := hd.1; omega)
+    · rcases hdom with hd | hd
+      · exact absurd h (not_lt.2 hd.2)
+      · exact absurd hp (by have := hd.1; omega)
+  unfold continuity
+  simp only [hnot1, hnot2, if_false, heq, if_true]
+  rfl
+
+
+/-- Beyond the tolerance outside a non-periodic basis `continuity` raises `ValueError`. -/
+theorem continuity_out_of_range [FloorRing K] (b : Basis K) (tol t : K) (hper : b.periodic < 0)
+    (hout : t < b.start - tol ∨ b.stop + tol < t) : continuity b tol t = .error .value := by
+  unfold continuity
+  simp only [hper, hout, and_self, if_true]
   rfl
 
 end Splipy.C20
